@@ -254,6 +254,11 @@ class EncodeState:
                 odxraise(f"Illegal bit length for a float64 object ({bit_length})")
                 bit_length = 64
 
+            if not isinstance(internal_value, (int, float)):
+                odxraise(
+                    f"Internal value must be of numeric type, not {type(internal_value).__name__}",
+                    EncodeError)
+
             try:
                 raw_value = float(internal_value)
                 if base_data_type == DataType.A_FLOAT32 and math.isfinite(raw_value):
